@@ -41,6 +41,12 @@ MISSES = {
 }
 
 
+REVERT_NOTES = {
+    '6900bb3': 'its symptom (a store node overwritten by deltas of a duplicate proxy that is not the pooled one) carries the same mechanism key as the recorded C25 finding, so the known-finding classification hides it: keys by mechanism cannot tell call sites of one mechanism apart',
+    '4dba221': 'needs a family proxy whose pruned child is re-visited by the family ascent; found once, by a thorough run',
+}
+
+
 def main():
     out = []
     A = out.append
@@ -99,6 +105,54 @@ def main():
       'and caught after the strengthening described in the last column '
       '(every strengthened check was re-run on the unchanged tree over '
       'several seeds).\n')
+    # 10.8 fix-revert guard
+    rdir = os.path.join(ROOT, 'reverts')
+    if os.path.isdir(rdir):
+        A('\n### 10.8 Fix-revert guard\n')
+        A('Every `fix:` commit repaired a defect that a check had found; '
+          'taking the repair out again is the most realistic '
+          'property-breaking change there is. `tools/reverts.py make` turns '
+          'each repair into a seeded change (`git revert --no-commit` in a '
+          'scratch worktree, stored under `reverts/<hash>/`); '
+          '`tools/reverts.py eval` runs the owning check (quick tier, seeds '
+          '0,1,2,... until one fails; checks of related properties where '
+          'noted) against a scratch worktree carrying the revert. Not run by '
+          'any registered command.\n')
+        A('| fix | property | defect | verdict |')
+        A('|---|---|---|---|')
+        ncaught = ntotal = 0
+        for h in sorted(os.listdir(rdir)):
+            d = os.path.join(rdir, h)
+            try:
+                meta = json.load(open(os.path.join(d, 'meta.json')))
+            except Exception:
+                continue
+            res = []
+            if os.path.exists(os.path.join(d, 'result.json')):
+                res = json.load(open(os.path.join(d, 'result.json')))
+            what = meta['summary'].split(': ', 1)[-1]
+            what = re.sub(r'\s+', ' ', what)[:140]
+            if meta.get('skipped'):
+                verdict = 'not evaluated: ' + meta['skipped']
+            else:
+                ntotal += 1
+                hit = [r for r in res if r['exit'] == 1]
+                if hit:
+                    ncaught += 1
+                    r = hit[0]
+                    verdict = (f"caught by {r['check']} (quick, seed "
+                               f"{r['seed']}: "
+                               + '; '.join(r['new_violation_keys'][:2]) + ')')
+                elif res:
+                    verdict = ('**not caught** (' + ', '.join(sorted({
+                        f"{r['check']} seed {r['seed']}" for r in res}))
+                        + ')' + (': ' + REVERT_NOTES[h]
+                                 if h in REVERT_NOTES else ''))
+                else:
+                    verdict = 'not evaluated'
+            A(f"| {h} | {meta['property']} | {what} | {verdict} |")
+        A(f'\n{ncaught} of {ntotal} reverts that apply cleanly are caught '
+          'within the quick tier.\n')
     text = '\n'.join(out)
     p = os.path.join(ROOT, 'DESIGN.md')
     s = open(p).read()
